@@ -59,7 +59,7 @@ partial def textLoop (h : IO.FS.Stream) (a : TAcc) : IO TAcc := do
     let t := toks (l.trimRight)
     let ds := Text.Check.checkLine t
     let kind := t.getD 0 ""
-    let isCase := ["BT", "AL", "ES", "ES0", "ES1", "GF", "FS", "DT", "SM", "X"].contains kind
+    let isCase := ["BT", "AL", "ES", "ES0", "ES1", "GF", "FS", "DT", "SM", "MN", "MNB", "X"].contains kind
     for d in ds do
       IO.println s!"R {kind} div {d.1} :: {d.2}"
     textLoop h { lines := a.lines + 1, checked := a.checked + (if isCase then 1 else 0),
